@@ -4,6 +4,7 @@ MaxNodes2 = 0
 MaxSol = 2
 Shard = 0
 Shards = 1
+EmitIR = FALSE
 INVARIANT CodegenRefinesControl
 INVARIANT EmitInstance
 CHECK_DEADLOCK FALSE
